@@ -399,25 +399,66 @@ func strays(se *session) int {
 	return n
 }
 
+// unaccounted counts the entries of the table beyond those the pointers the client holds
+// account for, one entry per pointer.
+func (s *stepper) unaccounted(t [][2]uint64) int {
+	holds := map[uint64]bool{}
+	for _, h := range s.shm.held {
+		holds[h.off] = true
+	}
+	n := 0
+	for _, e := range t {
+		if holds[e[0]] {
+			delete(holds, e[0])
+			continue
+		}
+		n++
+	}
+	return n
+}
+
 func (s *stepper) Step(i int, st replay.Step) (replay.Obs, error) {
 	obs := replay.Obs{}
 	switch st.A {
 	case "Init":
 		obs["ok"] = true
 		return obs, nil
+	case "ReleaseOne":
+		k, n := replay.Int(st.Args, "k"), replay.Int(st.Args, "n")
+		if n != len(s.shm.held) || k < 1 || k > n {
+			return nil, fmt.Errorf("ReleaseOne k=%d n=%d but the client holds %d pointers", k, n, len(s.shm.held))
+		}
+		intact, freed, note := s.shm.releaseOne(k - 1)
+		t := s.shm.table()
+		obs["intact"] = intact
+		obs["freed"] = freed
+		obs["leak"] = s.unaccounted(t)
+		if len(s.shm.held) == 0 {
+			// that was the last pointer the client had
+			obs["clean"] = len(t) == 0
+		}
+		obs["m_tbl"] = s.unitTable(t)
+		if note != "" {
+			obs["__note__"] = note
+		}
+		return obs, nil
 	case "Release":
-		note := s.shm.releaseHeld()
+		note, intact, freed := s.shm.releaseHeld()
 		t := s.shm.table()
 		obs["clean"] = len(t) == 0
+		obs["intact"] = intact
+		obs["freed"] = freed
 		obs["m_tbl"] = s.unitTable(t)
 		if note != "" {
 			obs["__note__"] = note
 		}
 		return obs, nil
 	case "Close":
-		note := s.shm.releaseHeld()
+		note, intact, freed := s.shm.releaseHeld()
 		t := s.shm.table()
 		obs["clean"] = len(t) == 0
+		obs["intact"] = intact
+		obs["freed"] = freed
 		obs["m_tbl"] = s.unitTable(t)
 		s.shm.c2s.Close()
 		s.plain.c2s.Close()
@@ -469,16 +510,20 @@ func (s *stepper) Step(i int, st replay.Step) (replay.Obs, error) {
 		}
 	}
 	note := res.note
+	// every pointer the client holds, from this call or an earlier one, still shows its result
+	intact, inote := true, ""
+	if se.seg != nil {
+		se.lockstep()
+		intact, inote = se.intact()
+	}
+	note += inote
 	if s.hold == "call" {
-		note += se.releaseHeld()
+		n, _, _ := se.releaseHeld()
+		note += n
 	}
 	t1 := se.table()
-	leak := 0
-	for _, e := range t1 {
-		if se.owner[e[0]] != heldByClient {
-			leak++
-		}
-	}
+	leak := s.unaccounted(t1)
+	obs["intact"] = intact
 	obs["res"] = abstract(res.batches, exps, want, res.note)
 	obs["cfreed"] = cfreed
 	obs["leak"] = leak
@@ -507,6 +552,13 @@ func (s *stepper) Step(i int, st replay.Step) (replay.Obs, error) {
 		pcs.inputs = append(pcs.inputs, inputSpec{payload: in.payload})
 	}
 	pres := s.plain.call(&pcs)
+	// from now on a pointer received on this call stands for what the plain session returned
+	for k := range se.held {
+		h := &se.held[k]
+		if h.ncall == se.nreq && h.idx < len(pres.batches) {
+			h.ref.kind, h.ref.schema, h.ref.payload = pres.batches[h.idx].kind, pres.batches[h.idx].schema, pres.batches[h.idx].payload
+		}
+	}
 	pquiet := s.plain.quiesce()
 	pextra := strays(s.plain)
 	obs["plain"] = abstract(pres.batches, exps, want, pres.note)
